@@ -303,7 +303,7 @@ def rule_r4(ctx) -> List[R.Inst]:
 def rule_r5(ctx) -> List[R.Inst]:
     """content of the conversion step (rule code of C08.R1-R3, evaluated here on the same 17 entry points)"""
     out = []
-    for fn_, tag in ((c08.rule_r1, "R1"), (c08.rule_r2, "R2"), (c08.rule_r3, "R3")):
+    for fn_, tag in ((c08.rule_r1, "R1"), (c08.rule_r2, "R2"), (c08.rule_r3, "R3"), (c08.rule_r5, "R5")):
         for i in fn_(ctx):
             i.key = f"C08.{tag}:{i.key}"
             i.rule = "C09.R5"
@@ -311,11 +311,44 @@ def rule_r5(ctx) -> List[R.Inst]:
     return out
 
 
+# what the target writer can express (frozen from the writers' documented domains: C05 quantifies over 4/4 tempo points only;
+# BMSMap._write_notes emits a time-signature object only in the tempo point's own measure)
+TARGET_DOMAIN = {"bms": {"bpms": {"metronome": "the BMS writer supports 4/4 only: a copied metronome != 4 is written as a one-measure "
+                                               "time signature while later notes are snapped as if it carried on"}}}
+
+
+def rule_r6(ctx) -> List[R.Inst]:
+    insts = []
+    for cv in c08.convs(ctx):
+        dom = TARGET_DOMAIN.get(cv.tgt_game)
+        if not dom:
+            continue
+        for call, tgt, st in cv.casts:
+            if tgt is None or tgt.attr not in dom:
+                continue
+            mp = call.args[2] if len(call.args) > 2 else next((k.value for k in call.keywords if k.arg == "mapping"), None)
+            names = []
+            if isinstance(mp, ast.Call) and isinstance(mp.func, ast.Name) and mp.func.id == "dict":
+                names = [k.arg for k in mp.keywords]
+            elif isinstance(mp, ast.Dict):
+                names = [C.const_str(k) for k in mp.keys]
+            key = f"{cv.name}.{cv.fn.name}:{tgt.attr}"
+            bad = [n for n in names if n in dom[tgt.attr]]
+            if bad:
+                insts.append(R.viol("C09.R6", key, cv.file, call.lineno,
+                                    f"'{bad[0]}' of the source is copied into the {cv.tgt_game} chart: {dom[tgt.attr][bad[0]]}",
+                                    construct=f"{key} maps {bad}"))
+            else:
+                insts.append(R.ok("C09.R6", key, cv.file, call.lineno, idiom=f"maps only {names}: fields the target writer can express"))
+    return insts
+
+
 SPECS = [
     RuleSpec("C09.R1", rule_r1, 16, "M0", "the 16 source->target converters exist, are exported, and their target has a writer"),
     RuleSpec("C09.R2", rule_r2, 13, "A1", "the target's key-count field is derived from the source's key count"),
     RuleSpec("C09.R3", rule_r3, 3, "A7", "key<->mode tables mutually inverse; the SM writer sizes rows from the same table"),
     RuleSpec("C09.R5", rule_r5, 200, "A1", "converter content: list mapping tables, declared targets, one target per source (C08.R1-R3 on the pipeline)"),
+    RuleSpec("C09.R6", rule_r6, 4, "A10", "only fields the target writer can express are copied (BMS: 4/4 only)"),
     RuleSpec("C09.R4", rule_r4, 5, "A1", "StepMania file offset = first tempo point of the source (0 only where the reader pins it)"),
 ]
 
